@@ -231,6 +231,11 @@ func c14IsEmptyLeaf(edges [][]int, i int) bool {
 	return c14EmptyLeaves && i > 0 && len(edges[i]) == 0
 }
 
+// c14Parens: when set (cyclic graphs only), every included file is a URL whose explicit "( )" context holds its INCLUDE
+// directives: the text of the file is not legal inside itself, so a cycle that is noticed only after the file has been
+// entered a second time is reported as something else than a recursion.
+var c14Parens bool
+
 func c14GraphProject(edges [][]int) *vlib.Project {
 	p := &vlib.Project{Root: "root.jst", Files: map[string][]byte{}, Dirs: []string{"."}} // always on disk
 	name := func(i int) string {
@@ -238,6 +243,26 @@ func c14GraphProject(edges [][]int) *vlib.Project {
 			return "root.jst"
 		}
 		return fmt.Sprintf("f%d.jst", i)
+	}
+	if c14Parens {
+		for i, out := range edges {
+			var sb strings.Builder
+			ind := "  "
+			if i == 0 {
+				sb.WriteString("JSIGHT 0.3\n")
+				ind = ""
+			} else {
+				fmt.Fprintf(&sb, "URL /u%d\n(\n  GET\n    200 any\n", i)
+			}
+			for _, t := range out {
+				fmt.Fprintf(&sb, "%sINCLUDE %s\n", ind, name(t))
+			}
+			if i > 0 {
+				sb.WriteString(")\n")
+			}
+			p.Files[name(i)] = []byte(sb.String())
+		}
+		return p
 	}
 	for i, out := range edges {
 		var sb strings.Builder
@@ -339,7 +364,9 @@ func c14OnCycle(edges [][]int, i int) bool {
 func c14GraphOracle(c *vlib.Case) *vlib.Violation {
 	edges := c14Edges(c)
 	c14EmptyLeaves = c.Params["empty_leaves"] == true
+	c14Parens = c.Params["parens"] == true
 	p := c14GraphProject(edges)
+	c14Parens = false
 	if c.Project != nil {
 		p.RootSpelling, p.ViaPath = c.Project.RootSpelling, c.Project.ViaPath
 	}
@@ -358,13 +385,11 @@ func c14GraphOracle(c *vlib.Case) *vlib.Violation {
 		if o.OK() {
 			return vlib.V("c14:cycle-accepted", "a file reaches itself through INCLUDE but the project is accepted; %s", desc)
 		}
-		if strings.HasPrefix(o.Msg, jerr.IncludeDirectiveErr) && o.File == "root.jst" && o.Line == 1 {
-			// a cycle through the root file: its mandatory JSIGHT directive is refused in an included file before the
-			// second level of the recursion is reached - the project is rejected at the re-included root
-			return nil
-		}
 		if !strings.HasPrefix(o.Msg, jerr.RecursionIsProhibited) {
-			return vlib.V("c14:cycle-other-error", "%s", desc)
+			// the recursion is noticed when the re-entered file meets its INCLUDE for the second time; an error in the
+			// repeated text comes first (open finding F2): the JSIGHT of a re-included root file, a URL inside its own
+			// explicit context
+			return vlib.V("c14:cycle-other-error", "a file reaches itself through INCLUDE and the project is rejected with another error than the recursion error; %s", desc)
 		}
 		// located at an INCLUDE that lies on a cycle
 		fi := -1
@@ -487,6 +512,14 @@ var c14RandomGraphs = &vlib.Check{
 			c.Params["empty_leaves"] = true
 			c14EmptyLeaves = true
 			c.Project = c14GraphProject(edges)
+		}
+		if cyclic, _, _ := c14Flatten(edges, 3000); cyclic && vlib.Chance(r, 1, 2) {
+			delete(c.Params, "empty_leaves")
+			c14EmptyLeaves = false
+			c.Params["parens"] = true
+			c14Parens = true
+			c.Project = c14GraphProject(edges)
+			c14Parens = false
 		}
 		c.Project.RootSpelling = vlib.Pick(r, c14Spellings)
 		c.Project.ViaPath = vlib.Chance(r, 1, 2)
@@ -692,6 +725,14 @@ func TestC14(t *testing.T) {
 					c.Params["empty_leaves"] = true
 					c14EmptyLeaves = true
 					c.Project = c14GraphProject(cases[i-1])
+				}
+				if cyclic, _, _ := c14Flatten(cases[i-1], 3000); cyclic && i%2 == 0 {
+					delete(c.Params, "empty_leaves")
+					c14EmptyLeaves = false
+					c.Params["parens"] = true
+					c14Parens = true
+					c.Project = c14GraphProject(cases[i-1])
+					c14Parens = false
 				}
 				// the root file's path is written in four ways in turn (clean, dir/./root, dir//root, dir/sub/../root)
 				c.Project.RootSpelling = c14Spellings[i%len(c14Spellings)]
